@@ -40,6 +40,9 @@ type Op struct {
 	Inputs     int  // inputs/ticks the client intends to send (upper bound)
 	CancelAt   int  // -1 none; k: the k-th input (0-based) is a cancel batch
 	Cast       bool // exchange inputs sent as int32 (castable)
+	// BadCast: the exchange inputs are sent with a non-castable column type
+	// (utf8 "x" for the declared int64): the cast fails on the first turn.
+	BadCast bool
 	WriteAhead int  // extra inputs written before reading the previous output
 	InputMeta  []hx.Meta
 	// Expect: filled by the generator/oracle helpers.
@@ -178,6 +181,8 @@ func inputBatch(op *Op, k int, cancel bool) arrow.RecordBatch {
 	if op.StreamKind == "exchange" {
 		if cancel {
 			b = hx.Int64Batch("x", nil, op.Cast)
+		} else if op.BadCast {
+			b = hx.StringBatch([]string{"x"}, []string{"not-a-number"})
 		} else {
 			b = hx.Int64Batch("x", []int64{int64(k + 1), int64(10 * (k + 1))}, op.Cast)
 		}
